@@ -453,6 +453,9 @@ impl TreeSys for Fam {
     fn max_len(&self) -> usize {
         self.max_len
     }
+    fn name(&self) -> String {
+        "matrix".into()
+    }
     fn visit(&self, w: &[u8], _p: Option<&()>, ctx: &mut Ctx) {
         check_word(w, &self.alpha, self.level, ctx)
     }
